@@ -173,13 +173,16 @@ def transposeCols (dflt : α) (cols : List (List α)) : List (List α) := rowsOf
 
 /-! ### sorting -/
 
+/-- `le` lifted to optional keys (an index outside the table sorts first; never happens) -/
+def optLe {κ} (le : κ → κ → Bool) : Option κ → Option κ → Bool
+  | none, _ => true
+  | some _, none => false
+  | some a, some b => le a b
+
 /-- `data.argsort()` on the record array of (transformed) key tuples: *some* sorting permutation
 (numpy's default sort is not stable); the model uses a merge sort of the row indices -/
 def sortIdx {κ} (le : κ → κ → Bool) (keys : List κ) : List Nat :=
-  (List.range keys.length).mergeSort fun i j =>
-    match keys[i]?, keys[j]? with
-    | some a, some b => le a b
-    | _, _ => true
+  (List.range keys.length).mergeSort fun i j => optLe le keys[i]? keys[j]?
 
 def sortedCols {κ} (dflt : α) (le : κ → κ → Bool) (keyOf : List α → κ) (cols : List (List α)) : List (List α) :=
   takeRows dflt (sortIdx le ((rowsOf dflt cols).map keyOf)) cols
@@ -373,6 +376,13 @@ def keyField (k : ColKind) (rev : Bool) (c : Cell) : Except String SKey :=
     | some f => .ok f
     | none => .error "TypeError"
 
+/-- the record of transformed key fields of one row (total: validated beforehand) -/
+def sortKeyOf (sel : List Nat) (kinds : List ColKind) (revs : List Bool) (r : List Cell) : List SKey :=
+  ((proj dfl sel r).zip (kinds.zip revs)).map fun (c, k, rv) =>
+    match keyField k rv c with
+    | .ok f => f
+    | .error _ => .bool false
+
 def Table.sorted (t : Table) (columns : Option (List String)) (reverse : List String) : Except String Table := do
   let cols := sortColumns t.header columns reverse
   let sel ← t.idxsOf cols
@@ -391,8 +401,10 @@ def Table.sorted (t : Table) (columns : Option (List String)) (reverse : List St
     for k in kinds do
       if k = .obj then throw "TypeError"
     let revs := cols.map (reverse.contains ·)
-    let keys ← (rowsOf dfl (selectCols sel t.cols)).mapM fun r =>
+    -- every key field must exist (no missing values among the keys) ...
+    let _ ← (rowsOf dfl (selectCols sel t.cols)).mapM fun r =>
       (r.zip (kinds.zip revs)).mapM fun (c, k, rv) => keyField k rv c
-    pure { t with cols := takeRows dfl (sortIdx lexLe keys) t.cols }
+    -- ... then `argsort` on the records of transformed key fields, and `col[indices]` for every column
+    pure { t with cols := sortedCols dfl lexLe (sortKeyOf sel kinds revs) t.cols }
 
 end CogentModel.TableOps
